@@ -101,6 +101,56 @@ CLAIMS = {
              'canonical term in both configurations modulo one vetted identity wrapper. Positive/negative controls on a '
              'fixtures crate run every time. Not decided: that the vetted invariants hold; floating point.',
         ref='7/C20'),
+    'C10': dict(
+        technique='canonical function summaries vs reviewed reference terms; zero/jitter/delegation clauses on terms',
+        text='Arrival models: each number_arrivals / clone_with_jitter / helper is summarised as a canonical term and compared '
+             'with a reviewed reference (ceil((delta+J)/T) with the delta=0 guard, delta-min lookup with whole-prefix '
+             'repetition, prefix lookup, pointwise sums, forwards); every implementation of an ArrivalBound method must be in '
+             'the table (new overrides are flagged). Separately: ZERO (0 at delta=0 by an accepted form), JIT (existing + '
+             'added jitter / fresh Propagated / same jitter to all components), JIT-WINDOW (count over delta + jitter), DELEG '
+             '(sum over every component, no adaptor). Not decided: that the counts bound real event sequences.',
+        ref='7/C10'),
+    'C11': dict(
+        technique='canonical iterator terms vs reviewed references; lower-bound, seam-guard, merge/dedup and conversion clauses',
+        text='Every steps_iter implementation (arrival and request bounds, default brute force, custom iterators with their '
+             'next/advance loops as one-iteration summaries) is compared with a reviewed reference; no zero item '
+             '(STEP-NONZERO: today it reports ArrivalCurvePrefix::steps_iter, a known finding); Sporadic/Propagated tails '
+             'keep exactly the shifted values >= 2 over the same jitter; composites are dedup(kmerge/merge(all components)); '
+             'step_offsets maps delta to delta-1. Not decided: coincidence with the increase points for given parameters.',
+        ref='7/C11'),
+    'C12': dict(
+        technique='one-iteration loop summaries and value terms vs reviewed references; sliding-window shape rule',
+        text='from_trace (whole window scanned newest-first before the push, eviction iff len > prefix), '
+             'from_arrival_bound(_until) cut-off predicates incl. the keep-at-least-two-entries clause, ArrivalCurvePrefix '
+             'construction / lookup / horizon-inclusive recording, prefix->Curve hand-over (horizon+1, njobs+1), the '
+             'DeltaMinIterator loop and its (n, delta-1) payload: compared with reviewed references. Not decided: domination '
+             'beyond the prefix.',
+        ref='7/C12'),
+    'C13': dict(
+        technique='borrow-scope / escape / transitive may-borrow effect analysis on typed HIR + compile-fail witnesses + reference summaries',
+        text='RefCell discipline of the shared extrapolation cache decided completely: no call that may borrow a RefCell '
+             'inside a guard\'s scope (trait calls resolved by static receiver type), no guard returned/stored/captured; '
+             'compile-fail witnesses (E0277, E0616, with compiling twins) that ExtrapolatingCurve is !Send, !Sync and its cache '
+             'field private. Append-only writers (who-may-write on min_distance), extrapolate(query+k), k>=1, before the '
+             'lookup, and reference summaries of extrapolate_next (max over k in 0..=n/2) / extrapolate* / min_distance / '
+             'the on-demand steps iterator. Not decided: conservativeness against event sequences.',
+        ref='7/C13'),
+    'C14': dict(
+        technique='reference summaries incl. one-iteration loop summaries; sliding-window shape; borrow analysis + compile-fail witnesses',
+        text='Cost models: cost_of_jobs / job_cost_iter / least_wcet of Scalar, Multiframe, Curve, ExtrapolatingCurve and '
+             'the trait defaults compared with reviewed references (sum of first n items, successive differences, least '
+             'increment over 1..min(len,n)); from_trace scans the whole window newest-first after push/evict; '
+             'extrapolate_next is min over k in 0..=n/2; cache discipline as in C13 for wcet::ExtrapolatingCurve with '
+             '!Send/!Sync witnesses and extrapolate(n+1) before cost_of_jobs(n). Not decided: domination beyond the prefix.',
+        ref='7/C14'),
+    'C16': dict(
+        technique='canonical terms vs reviewed references; delegation-form rule; inventory of trait-method implementations',
+        text='RBF = cost_of_jobs(number_arrivals(delta)), job_cost_iter takes number_arrivals(delta) items, '
+             'least_wcet_in_interval composes likewise; Aggregate/Slice: sum / min(default 0) / k-merge over every component '
+             'with arguments passed through; default service_needed_by_n_jobs = sorted->rev->take(max_jobs)->sum; auto_impl '
+             'forwards; any new override of a RequestBound method is flagged as unreviewed. Not decided: numeric relations '
+             'for given models.',
+        ref='7/C16'),
 }
 
 NOT_YET = 'clauses designed in DESIGN.md section 7 but not yet implemented in this commit'
